@@ -525,6 +525,25 @@ def run(ctx, rep):
             rep.ok("C13.natural", "prefix: 1 per level, closing 0", n_ok)
         else:
             rep.anchor("C13.natural", "encode_natural: prefix bits decided by the truncated bit length")
+        # no narrowing cast of the number (or of a length derived from it) anywhere in the encoder: "larger numbers are rejected,
+        # not truncated" -- a number cut to 32 bits encodes as n mod 2^32 and decodes to a different number
+        W = {"u8": 8, "i8": 8, "u16": 16, "i16": 16, "u32": 32, "i32": 32, "u64": 64, "i64": 64, "usize": 64, "isize": 64, "u128": 128, "i128": 128}
+        ncast = 0
+        for g in [enc] + [h for q, h in F.fns.items() if q.startswith(enc.path + "::")]:
+            for b in g.rpo():
+                for st in g.blocks[b]["s"]:
+                    if st[0] == "=" and st[2]["k"] == "cast" and st[2].get("cast") == "IntToInt" and st[2]["a"]["k"] in ("copy", "move"):
+                        src = g.locals[st[2]["a"]["p"][0]] if not st[2]["a"]["p"][1] else None
+                        src = src if isinstance(src, str) else (src or {}).get("ty") if isinstance(src, dict) else None
+                        dst = st[2]["ty"]
+                        if src in W and dst in W:
+                            ncast += 1
+                            if W[dst] < W[src]:
+                                rep.violation("C13.natural", "narrowing:%s->%s" % (src, dst), "%s casts a %s to %s: a number (or length) that does not fit is "
+                                              "silently truncated and encodes as a different number instead of being rejected" % (g.path.rsplit("::", 1)[-1], src, dst),
+                                              "%s:%s" % (g.file, st[3]))
+        if ncast:
+            rep.ok("C13.natural", "no narrowing integer cast in the encoder", ncast)
         pops = [cs for cs in enc.calls() if cs.name == "pop" and "Vec" in cs.callee]
         fwd = [cs for cs in enc.calls() if cs.name in ("into_iter", "iter", "drain", "remove") and "Vec" in (cs.callee + str(cs.f.get("args")))]
         wbe = []
